@@ -70,7 +70,9 @@ pub enum Resp {
     Eco(gamedig::games::eco::Response),
     /// Result of the definition-driven entry point: the common view, the
     /// original (protocol-specific) view and the accessor values.
-    Generic { json: Value, original: Value, accessors: Value },
+    /// `nonfinite`: NaN / infinite floating-point values in (as_json, as_original), counted on the typed
+    /// values (a JSON value cannot carry them)
+    Generic { json: Value, original: Value, accessors: Value, nonfinite: [u32; 2] },
     Master(Vec<(IpAddr, u16)>),
 }
 
@@ -111,7 +113,7 @@ impl Resp {
             Resp::Savage2(r) => jv(r),
             Resp::Jc2m(r) => jv(r),
             Resp::Eco(r) => jv(r),
-            Resp::Generic { json, original, accessors } => {
+            Resp::Generic { json, original, accessors, .. } => {
                 serde_json::json!({"json": json, "original": original, "accessors": accessors})
             }
             Resp::Master(v) => jv(v),
@@ -393,6 +395,10 @@ fn invoke_inner(call: &Call) -> GDResult<Resp> {
                 json: jv(&r.as_json()),
                 original: jv(&r.as_original()),
                 accessors: accessors_json(r.as_ref()),
+                nonfinite: [
+                    bson::to_bson(&r.as_json()).map_or(0, |b| count_nonfinite(&b)),
+                    bson::to_bson(&r.as_original()).map_or(0, |b| count_nonfinite(&b)),
+                ],
             }
         }
         Entry::MasterQuery { region, filters } => {
@@ -404,4 +410,40 @@ fn invoke_inner(call: &Call) -> GDResult<Resp> {
             Resp::Master(ms.query_specific(*region, filters, last_ip, *last_port)?)
         }
     })
+}
+
+/// Number of NaN / infinite doubles in a BSON value.
+pub fn count_nonfinite(b: &bson::Bson) -> u32 {
+    match b {
+        bson::Bson::Double(d) => u32::from(!d.is_finite()),
+        bson::Bson::Array(a) => a.iter().map(count_nonfinite).sum(),
+        bson::Bson::Document(d) => d.iter().map(|(_, v)| count_nonfinite(v)).sum(),
+        _ => 0,
+    }
+}
+
+impl Resp {
+    /// A response of the same type built directly from a JSON value (through the type's own
+    /// `Deserialize`), not obtained from a wire: `None` if the value does not fit the type.
+    pub fn rebuild(&self, j: Value) -> Option<Resp> {
+        fn de<T: serde::de::DeserializeOwned>(j: Value) -> Option<T> { serde_json::from_value(j).ok() }
+        Some(match self {
+            Resp::Valve(_) => Resp::Valve(de(j)?),
+            Resp::TheShip(_) => Resp::TheShip(de(j)?),
+            Resp::Gs1(_) => Resp::Gs1(de(j)?),
+            Resp::Gs2(_) => Resp::Gs2(de(j)?),
+            Resp::Gs3(_) => Resp::Gs3(de(j)?),
+            Resp::Q1(_) => Resp::Q1(de(j)?),
+            Resp::Q23(_) => Resp::Q23(de(j)?),
+            Resp::Unreal2(_) => Resp::Unreal2(de(j)?),
+            Resp::Java(_) => Resp::Java(de(j)?),
+            Resp::Bedrock(_) => Resp::Bedrock(de(j)?),
+            Resp::Mindustry(_) => Resp::Mindustry(de(j)?),
+            Resp::Ffow(_) => Resp::Ffow(de(j)?),
+            Resp::Savage2(_) => Resp::Savage2(de(j)?),
+            Resp::Jc2m(_) => Resp::Jc2m(de(j)?),
+            Resp::Eco(_) => Resp::Eco(de(j)?),
+            _ => return None,
+        })
+    }
 }
